@@ -171,6 +171,15 @@ theorem growFrontIfFull_back (c : Chan) : c.growFrontIfFull.back = c.back := by
   · split <;> rfl
   · rfl
 
+theorem reclaimIfFull_spec (c : Chan) :
+    ChanStep c c.reclaimIfFull ∧ c.reclaimIfFull.back = c.back ∧
+    c.reclaimIfFull.front.data = c.front.data := by
+  unfold Chan.reclaimIfFull
+  split
+  · exact ⟨ChanStep.setFront _ _ (wf_shift _) (by rw [shift_cap]; exact Nat.le_max_left _ _), rfl,
+      shift_data _⟩
+  · exact ⟨ChanStep.refl c, rfl, rfl⟩
+
 theorem readableLoop_step (closed : Bool) (fuel : Nat) (c : Chan) (rq : Bytes) (count : Nat) :
     ChanStep c (c.readableLoop closed fuel rq count).1 := by
   fun_induction Chan.readableLoop closed fuel c rq count
@@ -180,12 +189,12 @@ theorem readableLoop_step (closed : Bool) (fuel : Nat) (c : Chan) (rq : Bytes) (
   · exact (step_growFrontIfFull _).trans (ChanStep.of_eq rfl rfl rfl rfl)
   · exact (step_growFrontIfFull _).trans (ChanStep.of_eq rfl rfl rfl rfl)
   · next ih =>
-    refine ((step_growFrontIfFull _).trans ?_).trans ih
+    refine (((step_growFrontIfFull _).trans ?_).trans (reclaimIfFull_spec _).1).trans ih
     exact ChanStep.setFront _ _ (wf_fill _ _) (by rw [fill_cap]; exact Nat.le_max_left _ _)
 
 theorem readableLoop_back (closed : Bool) (fuel : Nat) (c : Chan) (rq : Bytes) (count : Nat) :
     (c.readableLoop closed fuel rq count).1.back = c.back := by
-  fun_induction Chan.readableLoop closed fuel c rq count <;> simp_all <;> exact growFrontIfFull_back _
+  fun_induction Chan.readableLoop closed fuel c rq count <;> simp_all [(reclaimIfFull_spec _).2.1] <;> exact growFrontIfFull_back _
 
 /-- `readable()` moves bytes from the kernel queue to the front buffer and
     neither drops, duplicates nor reorders any. -/
@@ -203,7 +212,8 @@ theorem readableLoop_data (closed : Bool) (fuel : Nat) (c : Chan) (rq : Bytes) (
     have hwf1 : ChanWF c1 := (step_growFrontIfFull c).wf h
     have hle : (rq.take n).length ≤ c1.front.availSpace := by
       simp only [List.length_take]; omega
-    rw [ih ⟨wf_fill _ _ hwf1.1, hwf1.2⟩]
+    have hwf2 : ChanWF { c1 with front := c1.front.fill (rq.take n) } := ⟨wf_fill _ _ hwf1.1, hwf1.2⟩
+    rw [ih ((reclaimIfFull_spec _).1.wf hwf2), (reclaimIfFull_spec _).2.2]
     simp only [fill_data _ _ hwf1.1 hle, List.append_assoc, List.take_append_drop]
     simp [c1, growFrontIfFull_data]
 
@@ -364,15 +374,6 @@ theorem tryReadTailCore_spec (c : Chan) :
       | some n => have := growSize_some c _ _ hg; simp; omega
   · exact ⟨ChanStep.refl c, rfl, rfl, Or.inl rfl⟩
 
-theorem reclaimIfFull_spec (c : Chan) :
-    ChanStep c c.reclaimIfFull ∧ c.reclaimIfFull.back = c.back ∧
-    c.reclaimIfFull.front.data = c.front.data := by
-  unfold Chan.reclaimIfFull
-  split
-  · exact ⟨ChanStep.setFront _ _ (wf_shift _) (by rw [shift_cap]; exact Nat.le_max_left _ _), rfl,
-      shift_data _⟩
-  · exact ⟨ChanStep.refl c, rfl, rfl⟩
-
 theorem tryReadTail_spec (c : Chan) :
     ChanStep c c.tryReadTail.1 ∧ c.tryReadTail.1.back = c.back ∧
     c.tryReadTail.1.front.data = c.front.data ∧
@@ -483,7 +484,8 @@ theorem readMessage_cases (dec : Bytes → Bool) (c : Chan) (h : ChanWF c) :
   rcases r1 with e | (_ | m)
   · exact ⟨hs, hb, rfl, rfl, hc⟩
   · exact ⟨hs.trans (ChanStep.of_eq rfl rfl rfl rfl), hb, rfl, rfl, hc⟩
-  · exact ⟨hs.trans (step_tryShrinkFront _), by rw [tryShrinkFront_back]; exact hb,
+  · exact ⟨(hs.trans (step_tryShrinkFront _)).trans (ChanStep.of_eq rfl rfl rfl rfl),
+      by show (Chan.tryShrinkFront c1).back = c.back; rw [tryShrinkFront_back]; exact hb,
       tryShrinkFront_data _, rfl, hc⟩
 
 theorem readable_spec (c : Chan) (rq : Bytes) (closed : Bool) (h : ChanWF c) :
@@ -492,7 +494,9 @@ theorem readable_spec (c : Chan) (rq : Bytes) (closed : Bool) (h : ChanWF c) :
   unfold Chan.readable
   split
   · exact ⟨ChanStep.refl c, rfl, rfl⟩
-  · exact ⟨readableLoop_step .., readableLoop_back .., readableLoop_data _ _ _ _ _ h⟩
+  · obtain ⟨r1, r2, r3⟩ := reclaimIfFull_spec c
+    exact ⟨r1.trans (readableLoop_step ..), (readableLoop_back ..).trans r2,
+      by rw [readableLoop_data _ _ _ _ _ (r1.wf h), r3]⟩
 
 theorem writable_spec (c : Chan) (sched : List Nat) (h : ChanWF c) :
     ChanStep c (c.writable sched).1 ∧ (c.writable sched).1.front = c.front ∧
